@@ -19,7 +19,11 @@ Streams
                     the trace hooks registered by factory.py) over real loopback sockets against a scripted HTTP server in the same
                     (virtual-time) event loop: delays before headers / between headers and body, chunked bodies, 404 / 503 (transport
                     retries), HEAD, POST, connection dropped by the server, client request-timeout expiring before / after the headers
-                    / mid-body; oracle from the server's own log.  Timing is virtual (exact); the clock advances only when no socket
+                    / mid-body; the stock multi-request runners (scroll-search / search with pages + clear-scroll, paginated-search,
+                    composite-agg, PIT open / search / close and async-search submit / get / delete inside composites, cluster-health
+                    and node-stats with deserialisation time) with one failure per conversation at any wire position; oracle from the
+                    server's own log: every HTTP request belongs to exactly one sub-request, none is on the wire after its logical
+                    request was recorded, start = first received, end = last exchange over.  Timing is virtual (exact); the clock advances only when no socket
                     becomes ready within VIOLoop.GRACE = 3 ms real time; a finding is reported only if a second execution reproduces it.
 
 translate(): RallyGen/TraceHooks.lean = the (signal, callback) registrations of EsClientFactory.create_async and the exception handler
@@ -215,6 +219,7 @@ class Recorder:
         self.empty_close = False
         self.main = None
         self.close_idx = {}   # ctx id -> index of its close event in self.events
+        self.exit_t = {}      # ctx id -> loop time of its exit
 
     def tid(self, task):
         if task not in self.tasks:
@@ -285,6 +290,7 @@ class ProxyMgr:
         rec = self.rec
         s, e = self.real.request_start, self.real.request_end
         rec.reads.append({"ctx": self.cid, "start": q(s), "end": q(e)})
+        rec.exit_t[self.cid] = q(asyncio.get_running_loop().time())
         rec.close_idx[self.cid] = len(rec.events)
         rec.events.append({"k": "close", "task": rec.tid(asyncio.current_task()), "ctx": self.cid, "exc": bool(a and a[0] is not None)})
         p = rec.parent[self.cid]
@@ -1304,16 +1310,51 @@ CLS_NOEND = "wire-request-not-covered"                 # a necessary condition f
                                                         # end before the server answered
 CLS_HDR_END = "failure-while-reading-body-ends-at-headers"   # end = arrival of the response headers although the request went on (and failed) later
 CLS_REAL = "real-stack-span"
+CLS_AFTER = "wire-request-after-its-request-was-recorded"   # e.g. a clean-up request started in the background on an error path
+CLS_END_LATE = "end-after-last-byte"                        # the end is (re-)recorded after the response was received, e.g. after deserialisation
+
+
+class StructureError(Exception):
+    pass
+
+
+def route_key(method, path, body):
+    """which conversation an HTTP request belongs to: '<kind>:<tag>'.  The tag of a sub-request travels in something every one of
+    its HTTP requests shows: the index in the path, the scroll id / point-in-time id / async-search id the server handed out, a
+    marker term in the query.  Used by the server (on what it received) and by the harness (on what the client was asked to send)."""
+    seg = [x for x in path.split("?")[0].split("/") if x]
+    body = body if isinstance(body, dict) else {}
+    if seg == ["_search", "scroll"]:
+        sid = body.get("scroll_id")
+        sid = sid[0] if isinstance(sid, list) else sid
+        return ("scroll_clear:" if method == "DELETE" else "scroll_next:") + str(sid)
+    if seg == ["_search"]:
+        return "pit_search:" + str(body.get("query", {}).get("match", {}).get("t"))
+    if seg == ["_pit"]:
+        return "pit_close:" + str(body.get("id"))
+    if len(seg) == 2 and seg[0] == "_async_search":
+        return ("async_delete:" if method == "DELETE" else "async_get:") + seg[1]
+    if seg[:2] == ["_cluster", "health"] and len(seg) == 3:
+        return "health:" + seg[2]
+    if seg[:2] == ["_nodes", "stats"]:
+        return "nodestats:"
+    if len(seg) == 2 and seg[1] in ("_search", "_pit", "_async_search"):
+        return {"_search": "search:", "_pit": "pit_open:", "_async_search": "async_submit:"}[seg[1]] + seg[0]
+    if len(seg) == 1:
+        return "raw:" + seg[0]
+    return "unknown:" + path
 
 
 class ScriptedServer:
-    """loopback HTTP/1.1 server in the harness' own event loop; every exchange follows the script of its path and is logged with
-    the loop's (virtual) time: recv = request completely received, hdr = response headers written, end = the exchange is over
-    (how = done: response complete / eof: the client closed the connection / close: the server closed it)"""
+    """loopback HTTP/1.1 server in the harness' own event loop; the n-th exchange of a conversation follows the n-th script of its
+    route key (the last script repeats) and is logged with the loop's (virtual) time: recv = request completely received, hdr =
+    response headers written, end = the exchange is over (how = done: response complete / eof: the client closed the connection /
+    close: the server closed it)"""
 
     def __init__(self, scripts):
         self.scripts = scripts
         self.log = []
+        self.seen = {}
         self.server = None
         self.port = None
         self.handlers = []
@@ -1361,12 +1402,18 @@ class ScriptedServer:
                 for ln in lines[1:]:
                     if ln.lower().startswith(b"content-length:"):
                         length = int(ln.split(b":")[1])
-                if length:
-                    await reader.readexactly(length)
-                path = target.split("?")[0]
-                ex = {"path": path, "method": method, "recv": self.now(), "hdr": None, "end": None, "how": None}
+                payload = await reader.readexactly(length) if length else b""
+                try:
+                    body = json.loads(payload) if payload else None
+                except ValueError:
+                    body = None
+                key = route_key(method, target, body)
+                n = self.seen.get(key, 0)
+                self.seen[key] = n + 1
+                ex = {"key": key, "n": n, "path": target.split("?")[0], "method": method, "recv": self.now(), "hdr": None, "end": None, "how": None}
                 self.log.append(ex)
-                if not await self.respond(reader, writer, self.scripts[path], ex, method):
+                scripts = self.scripts.get(key) or [{"status": 404, "pre": None}]
+                if not await self.respond(reader, writer, scripts[min(n, len(scripts) - 1)], ex, method):
                     return
         except (asyncio.IncompleteReadError, ConnectionError):
             pass
@@ -1388,7 +1435,10 @@ class ScriptedServer:
             return await until_gone()
         if sc.get("close") == "before_headers":
             return over("close")
-        body = b'{"took":1,"hits":{"total":{"value":0}}}' if sc["status"] < 400 else b'{"error":{"type":"scripted_failure"},"status":%d}' % sc["status"]
+        if sc["status"] < 400:
+            body = json.dumps(sc.get("resp", {"took": 1, "timed_out": False, "hits": {"total": {"value": 0, "relation": "eq"}, "hits": []}})).encode()
+        else:
+            body = b'{"error":{"type":"scripted_failure"},"status":%d}' % sc["status"]
         chunks = sc.get("chunks")
         head = b"HTTP/1.1 %d X\r\nContent-Type: application/json\r\nX-Elastic-Product: Elasticsearch\r\n" % sc["status"]
         head += b"Transfer-Encoding: chunked\r\n\r\n" if chunks is not None and method != "HEAD" else b"Content-Length: %d\r\n\r\n" % len(body)
@@ -1426,15 +1476,19 @@ class ScriptedServer:
 class RealStack:
     """EsClientFactory.create_async -> RallyAsyncElasticsearch -> elastic_transport -> aiohttp with the trace hooks registered by
     factory.py.  Observed from outside: which request-context callback is invoked when (class-level wrappers around
-    on_request_start / on_request_end that call the originals), which path a task is requesting (wrapper around perform_request)."""
+    on_request_start / on_request_end that call the originals), which HTTP request a task is performing (wrapper around
+    perform_request).  parse_cost: virtual time charged whenever the client deserialises a response body (JSONSerializer.loads)."""
 
-    def __init__(self, scripts):
+    def __init__(self, scripts, parse_cost=None):
         self.server = ScriptedServer(scripts)
+        self.parse_cost = parse_cost
         self.clients = []
-        self.cur_path = {}
+        self.cur_call = {}
+        self.calls = []          # one entry per perform_request call: {"key", "task"}
         self.undo = []
 
     async def start(self, rec, loop):
+        import elasticsearch.serializer
         from esrally.client.asynchronous import RallyAsyncElasticsearch as R
 
         context = _mods()["context"]
@@ -1448,7 +1502,7 @@ class RealStack:
             tid = rec.tasks[task]
             cur = rec.cur_ctx()
             t = _Clock.fn()
-            rec.wires.append({"task": tid, "cur": cur, "start": is_start, "t": Fraction(t), "op": stack.cur_path.get(tid), "idx": len(rec.events)})
+            rec.wires.append({"task": tid, "cur": cur, "start": is_start, "t": Fraction(t), "call": stack.cur_call.get(tid), "idx": len(rec.events)})
             rec.events.append({"k": "ws" if is_start else "we", "task": tid, "t": q(t)})
             if cur is not None and any(rec.closed[a] for a in rec.ancestors(cur)):
                 rec.late = True
@@ -1468,16 +1522,27 @@ class RealStack:
         orig_perform = R.perform_request
 
         async def perform_request(es, method, path, **kw):
-            task = asyncio.current_task()
-            tid = rec.tasks.get(task)
-            stack.cur_path[tid] = path.split("?")[0]
+            tid = rec.tasks.get(asyncio.current_task())
+            outer = stack.cur_call.get(tid)
+            stack.cur_call[tid] = len(stack.calls)
+            stack.calls.append({"key": route_key(method, path, kw.get("body")), "task": tid})
             try:
                 return await orig_perform(es, method, path, **kw)
             finally:
-                stack.cur_path.pop(tid, None)
+                stack.cur_call[tid] = outer
 
         R.perform_request = perform_request
         self.undo.append(lambda: setattr(R, "perform_request", orig_perform))
+        if self.parse_cost:
+            J = elasticsearch.serializer.JSONSerializer
+            orig_loads = J.loads
+
+            def loads(ser, data):
+                loop._vt += stack.parse_cost          # the client is busy parsing: time passes, nothing else runs
+                return orig_loads(ser, data)
+
+            J.loads = loads
+            self.undo.append(lambda: setattr(J, "loads", orig_loads))
 
     def make_es(self, rec, client_id):
         from esrally import client
@@ -1499,122 +1564,313 @@ class RealStack:
             self.undo = []
 
 
+# ---- generator -------------------------------------------------------------------------------------------------------------
 OUTCOMES = ["ok", "ok", "ok", "ok-slow-body", "ok-chunked", "status-404", "status-503", "head",
             "timeout-before-headers", "timeout-before-headers-stalled", "timeout-after-headers", "timeout-after-headers-stalled", "timeout-mid-body",
             "server-closes-before-headers", "server-closes-after-headers", "server-closes-mid-body"]
 FATAL = ("server-closes-before-headers", "server-closes-after-headers", "server-closes-mid-body")   # ConnectionError: the executor aborts
 D_SRV = [None, 0.25, 0.5, 1.0, 2.0]
+D_FAST = [None, None, 0.25]
+STEP_FAILURES = ["timeout-before-headers-stalled", "timeout-after-headers-stalled", "timeout-mid-body", "status-503", "status-404"]
 
 
-def gen_real_op(rng, st, name_mode, outcome):
-    """one raw-request sub-request + the script of its path; st = {"n": running number, "server": {...}}"""
-    uid = f"h{st['n']}"
-    st["n"] += 1
-    k = 4 + st["n"]            # a time-out gets its own binary digit: its expiry can never coincide with another event
-    eps = 2.0 ** -k
-    op = {"operation-type": "raw-request", "path": "/" + uid}
-    name = pick_name(rng, uid, name_mode)
-    if name is not None:
-        op["name"] = name
-    if rng.random() < 0.2:
-        op["method"] = "POST"
-        op["body"] = {"query": {"match_all": {}}}
-    sc = {"status": 200, "pre": rng.choice(D_SRV)}
-    if outcome in ("ok", "head"):
-        sc["body_delay"] = None
-        if outcome == "head":
-            op["method"] = "HEAD"
-            op.pop("body", None)
-    elif outcome == "ok-slow-body":
-        sc["body_delay"] = rng.choice([0.5, 1.0, 2.0])
-        if rng.random() < 0.5:
-            op["request-timeout"] = 8.0 + eps          # generous: never expires
-    elif outcome == "ok-chunked":
-        sc["chunks"] = [rng.choice(D_SRV) for _ in range(rng.choice([1, 2, 3, 4]))]
-    elif outcome.startswith("status-"):
-        sc["status"] = int(outcome[7:])
-        if rng.random() < 0.5:
-            sc["chunks"] = [rng.choice(D_SRV) for _ in range(rng.choice([1, 2]))]
-    elif outcome == "timeout-before-headers":
-        sc["pre"] = rng.choice([1.0, 2.0])
-        op["request-timeout"] = rng.choice([0.25, 0.5]) + eps
-    elif outcome == "timeout-before-headers-stalled":
-        sc["stall"] = "before_headers"
-        op["request-timeout"] = rng.choice([0.5, 1.0, 2.0]) + eps
-    elif outcome == "timeout-after-headers":
-        sc["pre"] = rng.choice([None, 0.25, 0.5])
-        sc["body_delay"] = 4.0
-        op["request-timeout"] = rng.choice([1.0, 2.0]) + eps
-    elif outcome == "timeout-after-headers-stalled":
-        sc["pre"] = rng.choice([None, 0.25, 0.5])
-        sc["stall"] = "after_headers"
-        op["request-timeout"] = rng.choice([1.0, 2.0]) + eps
-    elif outcome == "timeout-mid-body":
-        sc["pre"] = rng.choice([None, 0.25])
-        sc["chunks"] = [rng.choice([None, 0.25]) for _ in range(rng.choice([2, 3, 4]))]
-        sc["stall"] = "mid_body"
-        op["request-timeout"] = rng.choice([1.0, 2.0]) + eps
-    elif outcome == "server-closes-before-headers":
-        sc["close"] = "before_headers"
-    elif outcome == "server-closes-after-headers":
-        sc["close"] = "after_headers"
-    elif outcome == "server-closes-mid-body":
-        sc["chunks"] = [rng.choice([None, 0.25]) for _ in range(rng.choice([2, 3]))]
-        sc["close"] = "mid_body"
-    st["server"]["/" + uid] = sc
-    return op
+class RealGen:
+    def __init__(self, rng):
+        self.rng = rng
+        self.n = 0
+        self.server = {}
+        self.owners = {}
+
+    def uid(self):
+        self.n += 1
+        return f"h{self.n - 1}"
+
+    def eps(self):
+        return 2.0 ** -(5 + self.n)       # a time-out gets its own binary digit: its expiry can never coincide with another event
+
+    def own(self, key, uid, scripts):
+        self.server[key] = scripts
+        self.owners[key] = uid
+
+    def ok_script(self, resp=None, fast=False):
+        rng = self.rng
+        sc = {"status": 200, "pre": rng.choice(D_FAST if fast else D_SRV)}
+        if resp is not None:
+            sc["resp"] = resp
+        r = rng.random()
+        if r < 0.2:
+            sc["chunks"] = [rng.choice(D_FAST if fast else D_SRV) for _ in range(rng.choice([1, 2, 3]))]
+        elif r < 0.4:
+            sc["body_delay"] = rng.choice(D_FAST if fast else [0.25, 0.5, 1.0])
+        return sc
+
+    def fail_script(self, kind, resp=None):
+        rng = self.rng
+        sc = {"status": 200, "pre": rng.choice(D_FAST)}
+        if resp is not None:
+            sc["resp"] = resp
+        if kind == "timeout-before-headers-stalled":
+            sc["stall"] = "before_headers"
+        elif kind == "timeout-after-headers-stalled":
+            sc["stall"] = "after_headers"
+        elif kind == "timeout-mid-body":
+            sc["chunks"] = [rng.choice(D_FAST) for _ in range(rng.choice([2, 3, 4]))]
+            sc["stall"] = "mid_body"
+        elif kind.startswith("status-"):
+            sc["status"] = int(kind[7:])
+        return sc
+
+    # -- single raw request (every outcome class, see round 3)
+    def raw(self, name_mode, outcome):
+        rng = self.rng
+        uid = self.uid()
+        eps = self.eps()
+        op = {"operation-type": "raw-request", "path": "/" + uid, "_uid": uid}
+        name = pick_name(rng, uid, name_mode)
+        if name is not None:
+            op["name"] = name
+        if rng.random() < 0.2:
+            op["method"] = "POST"
+            op["body"] = {"query": {"match_all": {}}}
+        sc = {"status": 200, "pre": rng.choice(D_SRV)}
+        if outcome in ("ok", "head"):
+            sc["body_delay"] = None
+            if outcome == "head":
+                op["method"] = "HEAD"
+                op.pop("body", None)
+        elif outcome == "ok-slow-body":
+            sc["body_delay"] = rng.choice([0.5, 1.0, 2.0])
+            if rng.random() < 0.5:
+                op["request-timeout"] = 8.0 + eps          # generous: never expires
+        elif outcome == "ok-chunked":
+            sc["chunks"] = [rng.choice(D_SRV) for _ in range(rng.choice([1, 2, 3, 4]))]
+        elif outcome.startswith("status-"):
+            sc["status"] = int(outcome[7:])
+            if rng.random() < 0.5:
+                sc["chunks"] = [rng.choice(D_SRV) for _ in range(rng.choice([1, 2]))]
+        elif outcome == "timeout-before-headers":
+            sc["pre"] = rng.choice([1.0, 2.0])
+            op["request-timeout"] = rng.choice([0.25, 0.5]) + eps
+        elif outcome == "timeout-before-headers-stalled":
+            sc["stall"] = "before_headers"
+            op["request-timeout"] = rng.choice([0.5, 1.0, 2.0]) + eps
+        elif outcome == "timeout-after-headers":
+            sc["pre"] = rng.choice([None, 0.25, 0.5])
+            sc["body_delay"] = 4.0
+            op["request-timeout"] = rng.choice([1.0, 2.0]) + eps
+        elif outcome == "timeout-after-headers-stalled":
+            sc["pre"] = rng.choice([None, 0.25, 0.5])
+            sc["stall"] = "after_headers"
+            op["request-timeout"] = rng.choice([1.0, 2.0]) + eps
+        elif outcome == "timeout-mid-body":
+            sc["pre"] = rng.choice([None, 0.25])
+            sc["chunks"] = [rng.choice([None, 0.25]) for _ in range(rng.choice([2, 3, 4]))]
+            sc["stall"] = "mid_body"
+            op["request-timeout"] = rng.choice([1.0, 2.0]) + eps
+        elif outcome == "server-closes-before-headers":
+            sc["close"] = "before_headers"
+        elif outcome == "server-closes-after-headers":
+            sc["close"] = "after_headers"
+        elif outcome == "server-closes-mid-body":
+            sc["chunks"] = [rng.choice([None, 0.25]) for _ in range(rng.choice([2, 3]))]
+            sc["close"] = "mid_body"
+        self.own("raw:" + uid, uid, [sc])
+        return [op]
+
+    # -- conversations: several HTTP requests for one sub-request, incl. the clean-up request on the error path
+    def conversation(self, op, steps, p_bad, timeouts_ok=True):
+        """steps = [(route key, response json)] in the order the runner sends them when nothing fails; with probability p_bad one
+        position fails (time-out at any phase / 503 after the transport's retries / 404) - the runner then stops, except for what
+        it does on its error path (steps marked cleanup are still sent)."""
+        rng = self.rng
+        uid = op["_uid"]
+        fail_at = rng.randrange(len(steps)) if rng.random() < p_bad else None
+        # (open/close-point-in-time and the async-search runners do not pass `request-timeout` on: only status failures there)
+        kind = rng.choice(STEP_FAILURES if timeouts_ok else STEP_FAILURES[3:]) if fail_at is not None else None
+        timeout = kind is not None and kind.startswith("timeout")
+        if timeout:
+            op["request-timeout"] = rng.choice([1.0, 2.0]) + self.eps()
+        per_key = {}
+        for i, (key, resp) in enumerate(steps):
+            sc = self.fail_script(kind, resp) if i == fail_at else self.ok_script(resp, fast=timeout or kind is not None)
+            per_key.setdefault(key, []).append(sc)
+        for key, scs in per_key.items():
+            self.own(key, uid, scs)
+        return fail_at
+
+    @staticmethod
+    def hits(n, with_sort=True):
+        return [dict({"_id": str(i), "_source": {"f": i}}, **({"sort": [i]} if with_sort else {})) for i in range(n)]
+
+    def scroll(self, name_mode, p_bad, in_composite):
+        rng = self.rng
+        uid = self.uid()
+        pages = rng.choice([1, 2, 2, 3])
+        to_the_end = rng.random() < 0.4
+        op = {"operation-type": "search" if in_composite or rng.random() < 0.3 else "scroll-search", "index": uid, "body": {"query": {"match_all": {}}},
+              "pages": "all" if to_the_end else pages, "results-per-page": 2, "_uid": uid}
+        name = pick_name(rng, uid, name_mode)
+        if name is not None:
+            op["name"] = name
+        steps = [("search:" + uid, {"_scroll_id": uid, "took": 1, "timed_out": False, "hits": {"total": {"value": 100, "relation": "eq"}, "hits": self.hits(2)}})]
+        for p in range(1, pages):
+            steps.append(("scroll_next:" + uid, {"_scroll_id": uid, "took": 1, "timed_out": False, "hits": {"hits": self.hits(2)}}))
+        if to_the_end:
+            steps.append(("scroll_next:" + uid, {"_scroll_id": uid, "took": 1, "timed_out": False, "hits": {"hits": []}}))
+        steps.append(("scroll_clear:" + uid, {"succeeded": True, "num_freed": 1}))
+        self.conversation(op, steps, p_bad)
+        return [op]
+
+    def paginated(self, name_mode, p_bad, agg):
+        rng = self.rng
+        uid = self.uid()
+        pages = rng.choice([1, 2, 3])
+        if agg:
+            op = {"operation-type": "composite-agg", "index": uid, "pages": "all" if rng.random() < 0.5 else pages, "results-per-page": 2, "_uid": uid,
+                  "body": {"size": 0, "aggs": {"by": {"composite": {"sources": [{"f": {"terms": {"field": "f"}}}]}}}}}
+            steps = []
+            for p in range(pages):
+                by = {"buckets": [{"key": {"f": p}, "doc_count": 1}]}
+                if p < pages - 1:
+                    by["after_key"] = {"f": p}
+                steps.append(("search:" + uid, {"took": 1, "timed_out": False, "hits": {"total": {"value": 10, "relation": "eq"}, "hits": []}, "aggregations": {"by": by}}))
+        else:
+            op = {"operation-type": "paginated-search", "index": uid, "pages": "all" if rng.random() < 0.5 else pages, "results-per-page": 2, "_uid": uid,
+                  "body": {"query": {"match_all": {}}, "sort": [{"f": "asc"}]}}
+            steps = [("search:" + uid, {"took": 1, "timed_out": False, "hits": {"total": {"value": 2 * pages, "relation": "eq"}, "hits": self.hits(2)}}) for _ in range(pages)]
+        name = pick_name(rng, uid, name_mode)
+        if name is not None:
+            op["name"] = name
+        self.conversation(op, steps, p_bad)
+        return [op]
+
+    def pit_trio(self, p_bad):
+        rng = self.rng
+        uo, us, uc = self.uid(), self.uid(), self.uid()
+        pages = rng.choice([1, 2])
+        pit = "pit-" + uo
+        o = {"operation-type": "open-point-in-time", "name": pit, "index": uo, "_uid": uo}
+        s = {"operation-type": "paginated-search", "name": rng.choice(NAME_POOL), "index": "ignored", "with-point-in-time-from": pit, "pages": pages, "results-per-page": 2,
+             "body": {"query": {"match": {"t": us}}, "sort": [{"f": "asc"}]}, "_uid": us}
+        c = {"operation-type": "close-point-in-time", "with-point-in-time-from": pit, "_uid": uc}
+        self.conversation(o, [("pit_open:" + uo, {"id": uo})], p_bad / 3, timeouts_ok=False)
+        self.conversation(s, [("pit_search:" + us, {"pit_id": uo, "took": 1, "timed_out": False, "hits": {"total": {"value": 2 * pages, "relation": "eq"}, "hits": self.hits(2)}})
+                              for _ in range(pages)], p_bad / 2)
+        self.conversation(c, [("pit_close:" + uo, {"succeeded": True, "num_freed": 1})], p_bad / 3, timeouts_ok=False)
+        return [o, s, c]
+
+    def async_trio(self, p_bad):
+        us, ug, ud = self.uid(), self.uid(), self.uid()
+        name = "async-" + us
+        s = {"operation-type": "submit-async-search", "name": name, "index": us, "body": {"query": {"match_all": {}}}, "_uid": us}
+        g = {"operation-type": "get-async-search", "retrieve-results-for": [name], "_uid": ug}
+        d = {"operation-type": "delete-async-search", "delete-results-for": [name], "_uid": ud}
+        self.conversation(s, [("async_submit:" + us, {"id": us, "is_running": True, "is_partial": True})], p_bad / 3, timeouts_ok=False)
+        self.conversation(g, [("async_get:" + us, {"id": us, "is_running": False, "is_partial": False,
+                                                    "response": {"took": 1, "timed_out": False, "hits": {"total": {"value": 3, "relation": "eq"}, "hits": []}}})], p_bad / 3, timeouts_ok=False)
+        self.conversation(d, [("async_delete:" + us, {"acknowledged": True})], p_bad / 3, timeouts_ok=False)
+        return [s, g, d]
+
+    def parsed(self, p_bad, nodestats_ok):
+        """top-level requests whose response the client deserialises (not a raw-response runner)"""
+        rng = self.rng
+        uid = self.uid()
+        if nodestats_ok and rng.random() < 0.4:
+            op = {"operation-type": "node-stats", "_uid": uid}
+            self.own("nodestats:", None, self.server.get("nodestats:", []) + [self.ok_script({"nodes": {"n1": {"jvm": {"mem": {"heap_used_in_bytes": 1}}}}})])
+            self.owners.setdefault("nodestats:calls", []).append(uid)
+            return [op]
+        op = {"operation-type": "cluster-health", "index": uid, "request-params": {"wait_for_status": "green"}, "_uid": uid}
+        self.conversation(op, [("health:" + uid, {"status": "green", "relocating_shards": 0, "number_of_nodes": 1})], p_bad)
+        return [op]
 
 
 def gen_real(ctx):
     rng = ctx.rng
     for _ in range(ctx.budget):
-        st = {"n": 0, "server": {}}
+        g = RealGen(rng)
         clients = []
-        for cid in range(rng.choice([1, 1, 1, 2])):
+        nclients = rng.choice([1, 1, 1, 2])
+        stats_client = rng.randrange(nclients)
+        for cid in range(nclients):
             name_mode = rng.choice(["unique", "pool", "same"])
             p_bad = rng.choice([0.0, 0.3, 0.6])
             fatal_used = False
             reqs = []
             nreq = rng.choice([1, 2, 2, 3])
-            for ri in range(nreq):
-                def outcome(last_of_client):
-                    nonlocal fatal_used
-                    if rng.random() >= p_bad:
-                        return rng.choice(OUTCOMES[:8])
-                    o = rng.choice(OUTCOMES[8:])
-                    if o in FATAL:
-                        # a connection error is fatal for the executor: only as the very last thing a client does
-                        if not last_of_client or fatal_used:
-                            return rng.choice(OUTCOMES[8:13])
-                        fatal_used = True
-                    return o
 
+            def raw_outcome(last_of_client):
+                nonlocal fatal_used
+                if rng.random() >= p_bad:
+                    return rng.choice(OUTCOMES[:8])
+                o = rng.choice(OUTCOMES[8:])
+                if o in FATAL:
+                    # a connection error is fatal for the executor: only as the very last thing a client does
+                    if not last_of_client or fatal_used:
+                        return rng.choice(OUTCOMES[8:13])
+                    fatal_used = True
+                return o
+
+            def sub_requests(in_composite):
+                r = rng.random()
+                if r < 0.45:
+                    return g.raw(name_mode, raw_outcome(False))
+                if r < 0.65:
+                    return g.scroll(name_mode, p_bad, in_composite)
+                if r < 0.80:
+                    return g.paginated(name_mode, p_bad, agg=rng.random() < 0.4)
+                if not in_composite:
+                    return g.paginated(name_mode, p_bad, agg=False)
+                return g.pit_trio(p_bad) if r < 0.90 else g.async_trio(p_bad)
+
+            for ri in range(nreq):
                 last_req = ri == nreq - 1
-                if rng.random() < 0.75:
+                r = rng.random()
+                if r < 0.55:
                     def stream(depth):
                         items = []
-                        n = rng.choice([1, 2, 2, 3])
-                        for i in range(n):
+                        for _ in range(rng.choice([1, 2, 2, 3])):
                             if depth < 2 and rng.random() < 0.4:
                                 items.append({"stream": stream(depth + 1)})
                             else:
-                                items.append(gen_real_op(rng, st, name_mode, outcome(False)))
+                                items += sub_requests(True)
                         return items
 
                     items = stream(0)
                     if last_req and rng.random() < p_bad * 0.5 and not fatal_used:
-                        items.append(gen_real_op(rng, st, name_mode, rng.choice(FATAL)))
+                        items += g.raw(name_mode, rng.choice(FATAL))
                         fatal_used = True
                     params = {"name": f"req{ri}", "requests": items}
                     if rng.random() < 0.2:
                         params["max-connections"] = rng.choice([1, 2])
                     reqs.append({"type": "composite", "params": params, "at": 0})
                 else:
-                    op = gen_real_op(rng, st, name_mode, outcome(last_req))
-                    op.pop("operation-type")
-                    reqs.append({"type": "raw-request", "params": op, "at": 0})
+                    if r < 0.70:
+                        op = g.raw(name_mode, raw_outcome(last_req))[0]
+                    elif r < 0.85:
+                        op = sub_requests(False)[0]
+                    else:
+                        op = g.parsed(p_bad, nodestats_ok=cid == stats_client)[0]
+                    reqs.append({"type": op["operation-type"], "params": op, "at": 0})      # (the param source hands the operation type on)
             clients.append({"id": cid, "ramp": rng.choice([None, None, 0.25, 1.0]), "requests": reqs})
-        yield {"clients": clients, "server": st["server"]}
+        # client-side deserialisation takes (virtual) time - only where nothing else can be on the wire meanwhile, so that "last
+        # byte written by the server" = "last byte received by the client" stays exact
+        sequential = nclients == 1 and all(r["type"] != "composite" or all("stream" not in it for it in r["params"]["requests"]) for r in clients[0]["requests"])
+        yield {"clients": clients, "server": g.server, "owners": g.owners, "parse_cost": rng.choice([0.0625, 0.1875, 0.1875]) if sequential else None}
+
+
+def normalize_real_case(case):
+    """older corpus cases: scripts keyed by the path of raw requests"""
+    if "owners" in case:
+        return case
+    case = copy.deepcopy(case)
+    case["server"] = {"raw:" + k[1:]: [v] for k, v in case["server"].items()}
+    case["owners"] = {k: k[4:] for k in case["server"]}
+    for cl in case["clients"]:
+        for r in cl["requests"]:
+            for op in (flat_ops(r["params"]["requests"]) if r["type"] == "composite" else [r["params"]]):
+                op["_uid"] = op["path"][1:]
+    return case
 
 
 class Findings:
@@ -1650,105 +1906,144 @@ class Findings:
             self.ctx.sig(sg, nt)
 
 
-def request_paths(r):
+def request_uids(r):
     if r["type"] == "composite":
-        return [op["path"] for op in flat_ops(r["params"]["requests"])]
-    return [r["params"]["path"]]
+        return [op["_uid"] for op in flat_ops(r["params"]["requests"])]
+    return [r["params"]["_uid"]]
 
 
 def eval_real(f, case):
     """one execution of the case on the real stack + all comparisons; returns a fingerprint of what was observed"""
+    case = normalize_real_case(case)
     clients = case["clients"]
-    stack = RealStack(case["server"])
+    stack = RealStack(case["server"], case.get("parse_cost"))
     rec, samples, failure = exec_clients(copy.deepcopy(clients), stack=stack)
     log = stack.server.log
     fingerprint = json.dumps([samples, log, rec.reads, failure], sort_keys=True, default=str)
     what = "real_client"
-    has_fatal = any(sc.get("close") for sc in case["server"].values())
+    has_fatal = any(sc.get("close") for scs in case["server"].values() for sc in scs)
     if failure is not None and not has_fatal:
         f.diff(what + ": the code under test raised", "no exception", failure)
         return fingerprint
     f.count("executor-aborted-by-connection-error:" + ("yes" if failure else "no"))
     m = check_against_model(f, what, rec, samples, clients, aborted=failure is not None)
-    # --- the hook table: the request-context callbacks of every HTTP request are those of the model for its outcome class
-    by_path = {}
+    # --- who owns an exchange (by plan): the sub-request whose tag the HTTP request carries
+    owners = case["owners"]
+    stats_calls = list(owners.get("nodestats:calls", []))
+    by_uid, by_key, strays = {}, {}, []
     for e in log:
-        by_path.setdefault(e["path"], []).append(e)
-    groups = {}
-    for w in rec.wires:
-        g = groups.setdefault(w["op"], [])
-        if w["start"] or not g:
-            g.append([])
-        g[-1].append("start" if w["start"] else "end")
-    failed_paths = set()
+        by_key.setdefault(e["key"], []).append(e)
+        uid = stats_calls[e["n"]] if e["key"] == "nodestats:" and e["n"] < len(stats_calls) else owners.get(e["key"])
+        if uid is None:
+            strays.append(e)
+        else:
+            e["uid"] = uid
+            by_uid.setdefault(uid, []).append(e)
+    if strays:
+        f.fail("wire-request-of-no-request", f"{what}: HTTP requests that belong to no sub-request of the plan", [], [(e["method"], e["path"], e["key"]) for e in strays])
+    # --- the hook table: the request-context callbacks of every HTTP request are those of the model for its outcome class
+    failed_uids = set()
     for cl in clients:
         ss = [x for x in samples if x["client"] == cl["id"]]
         for i, r in enumerate(cl["requests"]):
             if i >= len(ss) or not ss[i]["success"]:
-                failed_paths.update(request_paths(r))
-    for path, exs in sorted(by_path.items()):
-        gs = groups.get(path, [])
-        if case["server"][path].get("close") and gs and len(exs) > len(gs) and len(exs) % len(gs) == 0:
+                failed_uids.update(request_uids(r))
+    attempts = {}          # route key -> [[acts of one attempt, is it the last attempt of its perform_request call]]
+    per_call = {}
+    for w in rec.wires:
+        g = per_call.setdefault(w["call"], [])
+        if w["start"] or not g:
+            g.append([])
+        g[-1].append("start" if w["start"] else "end")
+    for ci, call in enumerate(stack.calls):
+        gs = per_call.get(ci, [])
+        for gi, g in enumerate(gs):
+            attempts.setdefault(call["key"], []).append((g, gi == len(gs) - 1))
+    if None in per_call:
+        f.diff(f"{what}: request-context callbacks outside any perform_request call", [], per_call[None])
+    for key, exs in sorted(by_key.items()):
+        gs = attempts.get(key, [])
+        if any(sc.get("close") for sc in case["server"].get(key, [])) and gs and len(exs) > len(gs) and len(exs) % len(gs) == 0:
             # aiohttp re-sends a request once by itself when the server drops the connection (no new on_request_start):
             # one HTTP request for the hooks = several exchanges for the server; the last one decides how it ended
             k = len(exs) // len(gs)
             exs = [exs[j * k + k - 1] for j in range(len(gs))]
             f.count("aiohttp-internal-resend")
         if len(gs) != len(exs):
-            f.diff(f"{what}: {path}: number of HTTP requests seen by the hooks vs by the server", len(exs), gs)
+            f.diff(f"{what}: {key}: number of HTTP requests seen by the hooks vs by the server", len(exs), gs)
             continue
-        for gi, (ex, g) in enumerate(zip(exs, gs)):
+        for ex, (g, last) in zip(exs, gs):
             if ex["end"] is None:
-                continue        # still open when the run was torn down (cannot happen for a request of a recorded logical request)
+                continue        # still open when the run was torn down
             oc = "complete" if ex["how"] == "done" else ("failBeforeHeaders" if ex["hdr"] is None else "failAfterHeaders")
-            mh = f.model("ctx", "hooks", {"outcome": oc, "last": gi == len(gs) - 1})
-            if oc == "complete" and mh["r"] != g and path in failed_paths and g == f.model("ctx", "hooks", {"outcome": "failAfterHeaders"})["r"]:
+            mh = f.model("ctx", "hooks", {"outcome": oc, "last": last})
+            if oc == "complete" and mh["r"] != g and ex.get("uid") in failed_uids and g == f.model("ctx", "hooks", {"outcome": "failAfterHeaders", "last": last})["r"]:
                 # the response arrived at the very (virtual) instant at which the stream was cancelled because a sibling failed:
                 # complete for the server, given up after the headers by the client
                 oc, mh = "failAfterHeaders", {"r": g}
                 f.count("cancelled-at-arrival")
             f.count("outcome:" + oc)
             if mh["r"] != g:
-                f.diff(f"{what}: request-context callbacks of {ex['method']} {path} ({oc})", mh["r"], g)
+                f.diff(f"{what}: request-context callbacks of {ex['method']} {ex['path']} [{key}] ({oc})", mh["r"], g)
     # --- independent oracle: the server's own log
     client_tasks = [e["task"] for e in rec.events if e["k"] == "client"]
     cls_seen = None
+    reads = {r["ctx"]: r for r in rec.reads}
     for cl, t in zip(clients, client_tasks):
         tops = [c for c in range(len(rec.mgrs)) if rec.parent[c] is None and rec.opener[c] == t]
-        reads = {r["ctx"]: r for r in rec.reads}
         ss = [s for s in samples if s["client"] == cl["id"]]
         for i, r in enumerate(cl["requests"]):
             if i >= len(tops):
                 if failure is None:
                     f.fail("missing-sample", f"{what}: request {i} of client {cl['id']} was never executed")
                 continue
-            exs = [e for p in request_paths(r) for e in by_path.get(p, [])]
+            exs = [e for u in request_uids(r) for e in by_uid.get(u, [])]
             obs = reads.get(tops[i])
             if obs is None or not exs:
                 f.diff(f"{what}: request {i} of client {cl['id']}: context not exited / no HTTP request reached the server", "an exit and >= 1 exchange", [obs, len(exs)])
                 continue
-            exp = {"start": q(min(e["recv"] for e in exs)), "end": q(max(e["end"] for e in exs if e["end"] is not None))}
+            shown = [(e["key"], q(e["recv"]), q(e["hdr"]), q(e["end"]), e["how"]) for e in exs]
+            # (1) no HTTP request of a logical request is on the wire after the request has been recorded
+            after = [(e["key"], q(e["recv"]), q(e["end"])) for e in exs if e["end"] is None or Fraction(e["end"]) > Fraction(rec.exit_t[tops[i]])]
+            if after:
+                cls_seen = CLS_AFTER
+                f.fail(CLS_AFTER, f"{what}: request {i} of client {cl['id']} was recorded at {rec.exit_t[tops[i]]} while HTTP requests issued on its behalf were still to come / under way", [], after)
+                continue
+            # (2) recorded start / end = first request received ... last exchange over
+            exp = {"start": q(min(e["recv"] for e in exs)), "end": q(max(e["end"] for e in exs))}
             got = {"start": obs["start"], "end": obs["end"]}
             if got != exp:
-                gs, ge = (None if got[k] is None else Fraction(got[k]) for k in ("start", "end"))
-                necessary = gs is not None and ge is not None and all(gs <= Fraction(e["recv"]) and ge >= Fraction(e["hdr"] if e["hdr"] is not None else e["recv"]) for e in exs)
-                at_hdr = {"start": exp["start"], "end": q(max((e["hdr"] if (e["how"] != "done" and e["hdr"] is not None) else e["end"]) for e in exs if e["end"] is not None))}
-                cls_seen = CLS_NOEND if not necessary else (CLS_HDR_END if got == at_hdr else CLS_REAL)
+                gs_, ge_ = (None if got[k] is None else Fraction(got[k]) for k in ("start", "end"))
+                necessary = gs_ is not None and ge_ is not None and all(gs_ <= Fraction(e["recv"]) and ge_ >= Fraction(e["hdr"] if e["hdr"] is not None else e["recv"]) for e in exs)
+                at_hdr = {"start": exp["start"], "end": q(max((e["hdr"] if (e["how"] != "done" and e["hdr"] is not None) else e["end"]) for e in exs))}
+                if not necessary:
+                    cls_seen = CLS_NOEND
+                elif got == at_hdr:
+                    cls_seen = CLS_HDR_END
+                elif got["start"] == exp["start"] and ge_ > Fraction(exp["end"]):
+                    cls_seen = CLS_END_LATE
+                else:
+                    cls_seen = CLS_REAL
                 f.fail(cls_seen, f"{what}: request {i} of client {cl['id']}: recorded start/end is not (request received by the server first, last moment an HTTP request of it was still going on) "
-                       f"- exchanges {[(e['path'], q(e['recv']), q(e['hdr']), q(e['end']), e['how']) for e in exs]}", exp, got)
-            # sub-requests of a successful composite: one record per executed sub-request, from the server's log
+                       f"- exchanges {shown}", exp, got)
+            # (3) sub-requests of a successful composite: one record per executed sub-request, from the server's log
             if i < len(ss) and ss[i]["success"] and r["type"] == "composite":
                 exp_list = []
                 for op in flat_ops(r["params"]["requests"]):
-                    oe = by_path.get(op["path"], [])
+                    oe = by_uid.get(op["_uid"], [])
+                    if not oe:
+                        f.diff(f"{what}: sub-request {op['_uid']} of a successful composite sent no HTTP request", ">= 1", 0)
+                        continue
                     a, b = min(e["recv"] for e in oe), max(e["end"] for e in oe)
-                    exp_list.append({"operation": op.get("name"), "type": "raw-request", "start": q(a), "end": q(b), "svc": q(float(b) - float(a))})
-                key = lambda e: json.dumps(e, sort_keys=True)
-                if sorted(map(key, exp_list)) != sorted(map(key, ss[i]["raw_deps"] or [])):
+                    exp_list.append({"operation": op.get("name"), "type": op["operation-type"], "start": q(a), "end": q(b), "svc": q(float(b) - float(a))})
+                key_ = lambda e: json.dumps(e, sort_keys=True)
+                if sorted(map(key_, exp_list)) != sorted(map(key_, ss[i]["raw_deps"] or [])):
                     f.fail(CLS_SUB, f"{what}: dependent_timing of request {i} of client {cl['id']} differs from one record per sub-request computed from the server's log", exp_list, ss[i]["raw_deps"])
     f.count("http-requests", len(log))
+    for k in sorted({e["key"].split(":")[0] for e in log}):
+        f.count("route:" + k)
     f.sig([m.get("tags"), sorted({("complete" if e["how"] == "done" else ("before" if e["hdr"] is None else "after")) for e in log if e["end"] is not None}),
-           failure is not None, cls_seen, min(len(clients), 2)], nontrivial=len(log) > 1)
+           sorted({e["key"].split(":")[0] for e in log}), failure is not None, cls_seen, min(len(clients), 2), bool(case.get("parse_cost"))], nontrivial=len(log) > 1)
     return fingerprint
 
 
@@ -1763,7 +2058,6 @@ def run_real(ctx, case):
             ctx.count("io-not-reproducible:skipped")
             return
     f.flush()
-
 
 # ---------------------------------------------------------------------------------------------------------
 # table translator: which aiohttp trace signals are wired to which request-context callback (factory.py, AST)
@@ -1817,7 +2111,8 @@ def trace_hook_table(repo_root):
 def end_on_failure(repo_root):
     """does RallyAsyncElasticsearch.perform_request itself record the end of a request that fails?  0 = no; 1 = `except Exception`
     around the transport call invokes self.on_request_end() and re-raises; 2 = the same for every exception (bare except /
-    BaseException, i.e. also cancellation)"""
+    BaseException, i.e. also cancellation); 3 = a `finally:` invokes it, i.e. also when the call SUCCEEDS (after the response has
+    been received and deserialised)"""
     import ast
 
     src = open(os.path.join(repo_root, "esrally", "client", "asynchronous.py"), encoding="utf-8").read()
@@ -1833,6 +2128,8 @@ def end_on_failure(repo_root):
                                       and isinstance(c.func.value, ast.Attribute) and c.func.value.attr == "transport" for b in t.body for c in ast.walk(b))
                         if not guarded:
                             continue
+                        if any(isinstance(c, ast.Call) and isinstance(c.func, ast.Attribute) and c.func.attr == "on_request_end" for b in t.finalbody for c in ast.walk(b)):
+                            best = max(best, 3)
                         for h in t.handlers:
                             calls = any(isinstance(c, ast.Call) and isinstance(c.func, ast.Attribute) and c.func.attr == "on_request_end" for b in h.body for c in ast.walk(b))
                             reraises = any(isinstance(c, ast.Raise) and c.exc is None for b in h.body for c in ast.walk(b))
@@ -1858,7 +2155,8 @@ def translate(repo_root):
         "/- " + "; ".join(f"{sg} -> {m}" for sg, m in rows) + " -/",
         "",
         "/-- RallyAsyncElasticsearch.perform_request (asynchronous.py): 0 = a failing transport call is not handled there; 1 = `except Exception`",
-        "    around it calls self.on_request_end() and re-raises; 2 = the same for every exception (also cancellation) -/",
+        "    around it calls self.on_request_end() and re-raises; 2 = the same for every exception (also cancellation); 3 = in a `finally:`,",
+        "    i.e. also after a successful call -/",
         f"def endOnFailure : Nat := {eof}",
         "",
         "end Gen.TraceHooks",
